@@ -6,6 +6,15 @@
 (* is deterministic: it binds that state, keeps one ghost (claimed: what other tasks' specifications *)
 (* named when a task was created) and requires the contract of TaskBook.tla phrased over the logged  *)
 (* state.  Accept / reject decisions themselves are left open: the statement allows both.            *)
+(* Requests in flight: a create may be executed section by section (events "begin" / "step", result  *)
+(* "run" while the call has not returned; the driver holds it inside a store call and lists the      *)
+(* requests that have not returned in `flight`), other requests run in between.  The statement       *)
+(* speaks about accepted tasks and about the book-keeping AFTER delete / failed create / restart:    *)
+(* Exclusive, SelectsExactly and BookImplied are judged at the quiescent points (flight = []), which *)
+(* include the end of every trace; RejectIsNoop at the rejected call; PathsAgree always.  A request  *)
+(* admitted and still in flight counts as an owner of the names of its specification for the         *)
+(* exclusions of a request admitted meanwhile (it holds the reservation under which that request was *)
+(* checked).                                                                                         *)
 (* Known findings (env KF_<name>, see BUILDING.md): C10_PARTIAL_OVERLAP, C10_EXCLUDE_DROPPED,        *)
 (* C10_USERROLE_STICKY, C10_RELOAD_USERROLE - each weakens exactly one clause and is reported.       *)
 EXTENDS TaskBook, IOUtils, SequencesExt
@@ -17,8 +26,9 @@ KFOn(n) == ("KF_" \o n) \in DOMAIN IOEnv
 VARIABLES tr, l,
           T,        \* stored tasks after the last event
           B,        \* book-keeping after the last event: Targets -> [data, excl, ur, map]
-          claimed   \* ghost: task id -> pairs named by the specifications of the other tasks of its target at creation
-tvars == <<vars, tr, l, T, B, claimed>>
+          FL,       \* create requests in flight after the last event
+          claimed   \* ghost: task id -> pairs named by the specifications of the other tasks of its target - stored or in flight - when it was admitted
+tvars == <<vars, tr, l, T, B, FL, claimed>>
 
 Plan == Traces[tr].plan
 \* TRUE if the clause holds, or if it fails in the shape of a known finding that is switched on (and says so)
@@ -33,9 +43,10 @@ BookOf(seq, t) == LET K == {k \in 1..Len(seq) : seq[k].tgt = t}
                      ELSE LET b == seq[CHOOSE k \in K : TRUE]
                           IN [data |-> ToSet(b.data), excl |-> ToSet(b.excl), ur |-> b.ur, map |-> ToSet(b.map)]
 IdsOf(S) == {x.id : x \in S}
+FlightRec(x) == [id |-> x.id, name |-> [db |-> x.db, coll |-> x.coll], tgt |-> x.tgt]
 NamedBy(n) == {p \in Univ : Covers(n, p)}
 
-TInit == Init /\ tr \in 1..Len(Traces) /\ l = 1 /\ T = {} /\ B = [t \in Targets |-> EmptyBook] /\ claimed = <<>>
+TInit == Init /\ tr \in 1..Len(Traces) /\ l = 1 /\ T = {} /\ B = [t \in Targets |-> EmptyBook] /\ FL = {} /\ claimed = <<>>
 
 (* ---- the contract over the logged state ---- *)
 TPathsAgree(S) == \A x \in S : x.sel = x.sel2
@@ -58,31 +69,54 @@ TStep ==
     /\ LET e == Traces[tr].events[l]
            Tn == {TaskRec(x) : x \in ToSet(e.tasks)}
            Bn == [t \in Targets |-> BookOf(e.book, t)]
-           cl == [id \in IdsOf(Tn) |-> IF id \in DOMAIN claimed THEN claimed[id]
-                     ELSE LET me == CHOOSE x \in Tn : x.id = id
-                          IN {p \in Univ : \E u \in T : u.id # id /\ u.tgt = me.tgt /\ Covers(u.name, p)}]
-       IN /\ e.i = l /\ (l = Len(Traces[tr].events) => e.n = l)   \* the trace is complete: no event lost
+           Fn == {FlightRec(x) : x \in ToSet(e.flight)}
+           quiet == Fn = {}
+           \* the claim of a request is fixed when it is admitted: first event after which it is in flight or stored
+           tgtOf(id) == IF id \in IdsOf(Tn) THEN (CHOOSE x \in Tn : x.id = id).tgt ELSE (CHOOSE q \in Fn : q.id = id).tgt
+           cl == [id \in IdsOf(Tn) \cup IdsOf(Fn) |-> IF id \in DOMAIN claimed THEN claimed[id]
+                     ELSE {p \in Univ : \/ \E u \in T : u.id # id /\ u.tgt = tgtOf(id) /\ Covers(u.name, p)
+                                        \/ \E q \in FL : q.id # id /\ q.tgt = tgtOf(id) /\ Covers(q.name, p)}]
+           \* the task of this event's request is stored with the requested specification
+           stored == \E x \in Tn : /\ x.id = e.id /\ x.name = [db |-> e.db, coll |-> e.coll]
+                                   /\ x.ur = e.ur /\ x.tgt = e.tgt
+       IN /\ e.i = l /\ (l = Len(Traces[tr].events) => e.n = l /\ quiet)   \* the trace is complete (no event lost) and ends quiescent
           /\ \A x \in Tn : x.nnames = 1 /\ x.tgt \in Targets /\ x.sel \subseteq Univ
-          /\ Cardinality(IdsOf(Tn)) = Cardinality(Tn)
+          /\ Cardinality(IdsOf(Tn)) = Cardinality(Tn) /\ Cardinality(IdsOf(Fn)) = Cardinality(Fn)
           /\ \/ /\ e.op = "create" /\ e.res = "ok"              \* accepted: the task is stored with the requested specification
                 /\ e.id \notin IdsOf(T) /\ IdsOf(Tn) = IdsOf(T) \cup {e.id}
-                /\ \E x \in Tn : /\ x.id = e.id /\ x.name = [db |-> e.db, coll |-> e.coll]
-                                 /\ x.ur = e.ur /\ x.tgt = e.tgt
-             \/ /\ e.op \in {"create", "delete"} /\ e.res = "client"   \* rejected: nothing changes (RejectIsNoop)
-                /\ Tn = T /\ Bn = B
+                /\ stored /\ Fn = FL
+             \/ /\ e.op \in {"create", "delete", "begin"} /\ e.res = "client"   \* rejected: nothing changes (RejectIsNoop)
+                /\ Tn = T /\ Bn = B /\ Fn = FL
              \/ /\ e.op = "create" /\ e.res = "server"          \* failed create
-                /\ IdsOf(Tn) \subseteq IdsOf(T) \cup {e.id}
+                /\ IdsOf(Tn) \subseteq IdsOf(T) \cup {e.id} /\ Fn = FL
              \/ /\ e.op = "delete" /\ e.res = "ok"
-                /\ IdsOf(Tn) = IdsOf(T) \ {e.id}
+                /\ IdsOf(Tn) = IdsOf(T) \ {e.id} /\ Fn = FL
              \/ /\ e.op = "delete" /\ e.res = "server"
-                /\ IdsOf(Tn) \subseteq IdsOf(T)
-             \/ /\ e.op = "restart"
+                /\ IdsOf(Tn) \subseteq IdsOf(T) /\ Fn = FL
+             \/ /\ e.op = "restart" /\ FL = {} /\ Fn = {}
                 /\ IdsOf(Tn) = IdsOf(T)
+             \* a create executed section by section: held inside a store call ("run"), or returned in this section
+             \/ /\ e.op = "begin" /\ e.res = "run"
+                /\ e.id \notin IdsOf(T) \cup IdsOf(FL) /\ IdsOf(Fn) = IdsOf(FL) \cup {e.id}
+                /\ IdsOf(Tn) \subseteq IdsOf(T) \cup {e.id}
+             \/ /\ e.op = "step" /\ e.res = "run"
+                /\ e.id \in IdsOf(FL) /\ Fn = FL
+                /\ IdsOf(Tn) \subseteq IdsOf(T) \cup {e.id}
+             \/ /\ e.op \in {"begin", "step"} /\ e.res = "ok"    \* the call has returned: accepted
+                /\ (e.op = "begin" => e.id \notin IdsOf(FL)) /\ (e.op = "step" => e.id \in IdsOf(FL))
+                /\ IdsOf(Fn) = IdsOf(FL) \ {e.id}
+                /\ IdsOf(Tn) = IdsOf(T) \cup {e.id} /\ stored
+             \/ /\ e.op \in {"begin", "step"} /\ e.res = "server" \* the call has returned: failed create
+                /\ (e.op = "begin" => e.id \notin IdsOf(FL)) /\ (e.op = "step" => e.id \in IdsOf(FL))
+                /\ IdsOf(Fn) = IdsOf(FL) \ {e.id}
+                /\ IdsOf(Tn) \subseteq IdsOf(T) \cup {e.id}
+             \/ /\ e.op = "step" /\ e.res = "gone"               \* the plan advances a request that has already returned: no call is made
+                /\ Tn = T /\ Bn = B /\ Fn = FL
           /\ TPathsAgree(Tn)
-          /\ TExclusive(Tn)
-          /\ TSelectsExactly(Tn, cl)
-          /\ TBookImplied(Tn, Bn)
-          /\ T' = Tn /\ B' = Bn /\ claimed' = cl
+          /\ quiet => /\ TExclusive(Tn)
+                      /\ TSelectsExactly(Tn, cl)
+                      /\ TBookImplied(Tn, Bn)
+          /\ T' = Tn /\ B' = Bn /\ FL' = Fn /\ claimed' = cl
     /\ l' = l + 1 /\ tr' = tr /\ UNCHANGED vars
     /\ (Diag => PrintT("AT " \o ToString(Plan) \o " " \o ToString(l)))
     /\ (l = Len(Traces[tr].events) => PrintT("ACC " \o Plan))
